@@ -78,13 +78,18 @@ Contract(
             "all(%s for p in range(0, W))" % CAND("p"),
         ] + ["all(%s for p in range(0, W) if %s)" % (f("p"), VISITED) for f in DONE_PARTS] + [
             "all(%s for p in range(0, W) if not (%s))" % (UNTOUCHED("p"), VISITED),
-        ], cut=[f("pixel") for f in DONE_PARTS]),
+        ], cut=[
+            # proof hints (proved first, from sqrt(d*d) = d for d >= 0): they put sqrt(L*L) terms in scope so that the
+            # monotonicity of sqrt applies to "near_distance_square < L*L" / "max_distance*max_distance >= near_distance_square"
+            "not (old(line_proximity[pixel]) >= 0) or same(sqrt(old(line_proximity[pixel]) * old(line_proximity[pixel])), old(line_proximity[pixel]))",
+            "same(sqrt(max_distance * max_distance), max_distance)",
+        ] + [f("pixel") for f in DONE_PARTS]),
         1: LoopSpec("for", inv=[
             "is_target == any(source_line[pixel] == values[q] for q in range(0, i))",
         ]),
     },
     props=("C06",),
-    axioms=("sqrt", "sqrt_sq"),
+    axioms=("sqrt", "sqrt_sq", "sqrt_mono"),
     native={"skip": True},
     notes="ghost parameters img / wit_x / wit_y; GREAT_CIRCLE excluded here (bounded)",
 )
